@@ -173,27 +173,33 @@ class Check:
 
     def property_theorems(self):
         """Re-compile Properties/<id>.v alone, capturing Print Assumptions."""
-        src = os.path.join(COQ, "theories", "Properties", self.id + ".v")
-        txt = open(src).read()
+        import glob
+        pdir = os.path.join(COQ, "theories", "Properties")
+        srcs = [os.path.join(pdir, self.id + ".v")] + sorted(glob.glob(os.path.join(pdir, self.id + "_*.v")))
+        txt = "\n".join(open(x).read() for x in srcs)
         names = re.findall(r'^\s*(?:Theorem|Lemma|Corollary)\s+([A-Za-z0-9_\']+)', txt, re.M)
         printed = re.findall(r'^\s*Print Assumptions\s+([A-Za-z0-9_\']+)\s*\.', txt, re.M)
         bad = re.findall(r'\b(Admitted|admit|Axiom|Parameter|Conjecture|Hypothesis|Variable)\b', txt)
+        text, rcs, errs = "", 0, ""
         with Lock("coq"):
             out = os.path.join(self.work, "props")
             os.makedirs(out, exist_ok=True)
-            cmd = ["timeout", "600", "coqc", "-Q", os.path.join(COQ, "theories"), "GS",
-                   "-o", os.path.join(out, self.id + ".vo"), src]
-            p = run(cmd, timeout=700)
-        self.checker_cmds.append("coqc -Q theories GS theories/Properties/%s.v   (Print Assumptions under every theorem)" % self.id)
-        text = p.stdout.decode(errors="replace")
+            for src in srcs:
+                cmd = ["timeout", "600", "coqc", "-Q", os.path.join(COQ, "theories"), "GS",
+                       "-o", os.path.join(out, os.path.basename(src) + "o"), src]
+                p = run(cmd, timeout=700)
+                text += p.stdout.decode(errors="replace")
+                errs += p.stderr.decode(errors="replace")
+                rcs |= p.returncode
+                self.checker_cmds.append("coqc -Q theories GS theories/Properties/%s   (Print Assumptions under every theorem)" % os.path.basename(src))
         closed = text.count("Closed under the global context")
         axioms = re.findall(r'^Axioms:\n((?:.+\n)+)', text, re.M)
         self.obligations = len(names)
         self.theorems = names
-        if p.returncode != 0 or bad or set(printed) != set(names):
+        if rcs != 0 or bad or set(printed) != set(names):
             self.discharged = 0
-            self.violation({"kind": "property-theorems-do-not-check", "file": "Properties/%s.v" % self.id,
-                            "stderr": p.stderr.decode(errors="replace")[-2000:], "forbidden": bad,
+            self.violation({"kind": "property-theorems-do-not-check", "file": "Properties/%s*.v" % self.id,
+                            "stderr": errs[-2000:], "forbidden": bad,
                             "unprinted": sorted(set(names) - set(printed))}, no_input=True)
             return False
         self.discharged = closed
